@@ -756,6 +756,16 @@ def fam_discrete_delays_fixed():
                                                                  E('a0/li/x', 'a2/li/u', fp(), delay=dt * 2),
                                                                  E('a2/li/x', 'a0/li/u', fp(), delay=dt * 2)],
                                                      "three edges with one delay, a0 used twice, a1 never")))
+    out.append(("F9x:parallel-delayed", mk(lambda fp: [E('a0/li/x', 'a1/li/u', fp(), delay=dt * 2),
+                                                       E('a0/li/x', 'a1/li/u', fp(), delay=dt * 3),
+                                                       E('a1/li/x', 'a2/li/u', fp(), delay=dt * 2)],
+                                           "two parallel connections a0 -> a1 with different delays")))
+    out.append(("F9x:parallel-delayed-scalar-source", mk_src(lambda fp: [E('s0/src/s', 'a0/li/u', fp(), delay=dt * 3),
+                                                                         E('s0/src/s', 'a0/li/u', fp(), delay=dt * 2),
+                                                                         E('s0/src/s', 'a0/li/u', fp(), delay=dt * 3),
+                                                                         E('s0/src/s', 'a1/li/u', fp(), delay=dt * 3)],
+                                                             "scalar source; three parallel connections into a0 (delays 3, 2, 3) and "
+                                                             "one into a1 (delay 3): slots share a delay", n=2)))
     def mk_ab(edges_fn, note):
         fp = FP()
         ops = {'li': op_leaky(fp), 'o1': op_two_inputs(fp)}
@@ -858,6 +868,11 @@ def fam_gamma_fixed():
     out.append(("F11x:close-rates-2", mk(lambda fp: [E('a0/li/x', 'a1/li/u', fp(), delay=F(2000), spread=F(1000)),
                                                      E('a1/li/x', 'a2/li/u', fp(), delay=F(2001), spread=F(1000))],
                                          "rates 4/2000 and 4/2001 out of one vectorized source variable")))
+
+    out.append(("F11x:parallel-kernels", mk(lambda fp: [E('a0/li/x', 'a1/li/u', fp(), delay=A_[0], spread=A_[1]),
+                                                        E('a0/li/x', 'a1/li/u', fp(), delay=B_[0], spread=B_[1]),
+                                                        E('a1/li/x', 'a2/li/u', fp(), delay=A_[0], spread=A_[1])],
+                                            "two parallel connections a0 -> a1 with different kernels")))
 
     def mk_perm(order, note):
         m = mk(lambda fp: [E('a0/li/x', 'a1/li/u', fp(), delay=A_[0], spread=A_[1]),
